@@ -494,6 +494,69 @@ theorem sylvester_adjoint (S X G δS : Matrix (Fin m) (Fin m) F) (hS : Sᴴ = S)
 
 end sylvester
 
+/-! ### repeated square roots -/
+
+section sylvrepeat
+variable {F : Type} [Field F] [StarRing F] [DecidableEq F] {m : ℕ}
+
+/-- `V diag(s) V†` -/
+def specMat (m : ℕ) (V : ℕ → ℕ → F) (s : ℕ → F) : Matrix (Fin m) (Fin m) F :=
+  toMat m V * Matrix.diagonal (fun a : Fin m => s a.val) * (toMat m V)ᴴ
+
+/-- differential of `r` successive squarings starting at `S = V diag(s) V†`: `δ ↦ δ·S + S·δ`, then the same at `S²`, … -/
+def dchain (m : ℕ) (V : ℕ → ℕ → F) : ℕ → (ℕ → F) → Matrix (Fin m) (Fin m) F → Matrix (Fin m) (Fin m) F
+  | 0, _, δ => δ
+  | r + 1, s, δ => dchain m V r (fun a => s a * s a) (δ * specMat m V s + specMat m V s * δ)
+
+/-- no pass divides by zero: `s_a^(2^j) + s_b^(2^j) ≠ 0` for every pass `j < r` -/
+def SylvGuard (m r : ℕ) (s : ℕ → F) : Prop := ∀ j, j < r → ∀ a b, a < m → b < m → s a ^ (2 ^ j) + s b ^ (2 ^ j) ≠ 0
+
+theorem specMat_hermitian (V : ℕ → ℕ → F) (s : ℕ → F) (hreal : ∀ a, star (s a) = s a) :
+    (specMat m V s)ᴴ = specMat m V s := by
+  simp only [specMat, Matrix.conjTranspose_mul, Matrix.conjTranspose_conjTranspose, Matrix.diagonal_conjTranspose,
+    Matrix.mul_assoc]
+  congr 2
+  ext a b
+  by_cases h : a = b
+  · subst h; simp [Matrix.diagonal, hreal]
+  · simp [Matrix.diagonal, h]
+
+/-- **`repeat` passes of the Sylvester rule are the VJP of `repeat` successive squarings** (induction on `repeat`) -/
+theorem sylvBackward_adjoint (V : ℕ → ℕ → F) (hV1 : (toMat m V)ᴴ * toMat m V = 1) (hV2 : toMat m V * (toMat m V)ᴴ = 1)
+    (r : ℕ) (s : ℕ → F) (hreal : ∀ a, star (s a) = s a) (hg : SylvGuard m r s) (G : ℕ → ℕ → F)
+    (δ : Matrix (Fin m) (Fin m) F) :
+    Matrix.trace ((toMat m G)ᴴ * δ) = Matrix.trace ((toMat m (sylvBackward m V r s G))ᴴ * dchain m V r s δ) := by
+  induction r generalizing s G δ with
+  | zero => rfl
+  | succ r ih =>
+    have h0 : ∀ a b, a < m → b < m → s a + s b ≠ 0 := by
+      intro a b ha hb; have := hg 0 (Nat.succ_pos r) a b ha hb; simpa using this
+    have hg' : SylvGuard m r (fun a => s a * s a) := by
+      intro j hj a b ha hb
+      have := hg (j + 1) (Nat.succ_lt_succ hj) a b ha hb
+      rw [pow_succ 2 j, Nat.mul_comm, pow_mul, pow_mul] at this
+      simpa [sq] using this
+    have hreal' : ∀ a, star (s a * s a) = s a * s a := fun a => by rw [star_mul', hreal]
+    have step := sylvester_adjoint (specMat m V s) (toMat m (sylvStep m V s G)) (toMat m G) δ
+      (specMat_hermitian V s hreal) (sylvStep_solves V G s hV1 hV2 h0)
+    rw [step]
+    exact ih (fun a => s a * s a) hreal' hg' (sylvStep m V s G) (δ * specMat m V s + specMat m V s * δ)
+
+omit [DecidableEq F] in
+/-- squaring the operator squares the roots (`V` unitary): the chain really is `S, S², S⁴, …` -/
+theorem specMat_sq (V : ℕ → ℕ → F) (hV1 : (toMat m V)ᴴ * toMat m V = 1) (s : ℕ → F) :
+    specMat m V s * specMat m V s = specMat m V (fun a => s a * s a) := by
+  simp only [specMat]
+  calc toMat m V * Matrix.diagonal (fun a : Fin m => s a.val) * (toMat m V)ᴴ
+        * (toMat m V * Matrix.diagonal (fun a : Fin m => s a.val) * (toMat m V)ᴴ)
+      = toMat m V * Matrix.diagonal (fun a : Fin m => s a.val) * ((toMat m V)ᴴ * toMat m V)
+          * Matrix.diagonal (fun a : Fin m => s a.val) * (toMat m V)ᴴ := by simp only [Matrix.mul_assoc]
+    _ = toMat m V * (Matrix.diagonal (fun a : Fin m => s a.val) * Matrix.diagonal (fun a : Fin m => s a.val)) * (toMat m V)ᴴ := by
+        rw [hV1]; simp only [Matrix.mul_one, Matrix.mul_assoc]
+    _ = _ := by rw [Matrix.diagonal_mul_diagonal]
+
+end sylvrepeat
+
 /-! ### flat-parameter bridge -/
 
 theorem unflatten_flatMap {β : Type} (l : List (String × List β)) :
